@@ -1,6 +1,102 @@
-//! C30 driver: the fault-free, timely schedule. (filled in below)
-use vcore::Args;
-pub fn run(_args: &Args) {
-    eprintln!("not implemented yet");
-    std::process::exit(2);
+//! C30 driver: after an optional fault-ridden election prefix (loss, duplication, arbitrary timer expiries, no
+//! client appends) the network heals: every message is delivered, all clocks advance together in small steps,
+//! every node calls process() at every step (the server does so every 10 ms), a client appends entries at the
+//! node that is leader at that moment. After `--healthy-ms` of that the cluster is observed at quiescence
+//! (Quiet event): RaftTrace decides whether it has exactly one leader, equal logs, and every appended entry
+//! committed everywhere.
+use crate::sim::*;
+use serde_json::json;
+use vcore::{Args, Rng, Trace};
+
+fn drain(sim: &mut Sim, rng: &mut Rng, trace: &mut Trace, cap: usize) -> bool {
+    let mut n = 0;
+    while !sim.flight.is_empty() {
+        let (id, is_req) = { let m = rng.pick(&sim.flight); (m.0, matches!(m.1, Msg::Req(_))) };
+        let ev = if is_req { sim.deliver_req(id) } else { sim.deliver_resp(id) };
+        let bad = ev["ev"] == "Panic";
+        trace.emit(ev);
+        n += 1;
+        if bad || n > cap { return false; }
+    }
+    true
+}
+
+pub fn run(args: &Args) {
+    let seed = args.num("seed", 1);
+    let first = args.num("first", 0);
+    let runs = args.num("programs", 10);
+    let healthy_ms = args.num("healthy-ms", 30000);
+    let max_chaos = args.num("max-chaos", 60);
+    let max_appends = args.num("max-appends", 4);
+    let work = args.str("work", "/verif/harness/target/scratch/vraft");
+    let out = args.str("out", &format!("{work}/healthy_trace.ndjson"));
+    std::fs::create_dir_all(&work).unwrap();
+    let mut trace = Trace::create(&out);
+    let (mut n_runs, mut n_chaos, mut n_rounds, mut n_appends, mut n_events) = (0u64, 0u64, 0u64, 0u64, 0u64);
+    for run in first..first + runs {
+        let mut rng = Rng::new(seed.wrapping_mul(1_000_003).wrapping_add(run).wrapping_add(440_001));
+        let cfg = Settings { n: args.num("n", 3), ef: args.num("ef", 1000), hb: args.num("hb", 1000), tt: args.num("tt", 3000) };
+        let n = cfg.n as usize;
+        let advs = [0, 1, cfg.hb, cfg.hb + 1, cfg.ef, 2 * cfg.ef, cfg.tt, cfg.tt + 1];
+        let mut sim = Sim::new(cfg);
+        trace.emit(sim.reset_event());
+        // ---- chaos prefix: elections under loss / duplication / arbitrary timers (every second run starts cold)
+        let chaos = if run % 2 == 0 { 0 } else { rng.range(1, max_chaos) };
+        for _ in 0..chaos {
+            let x = rng.below(100);
+            let ev = if !sim.flight.is_empty() && x < 60 {
+                let (id, is_req) = { let m = rng.pick(&sim.flight); (m.0, matches!(m.1, Msg::Req(_))) };
+                if is_req { sim.deliver_req(id) } else { sim.deliver_resp(id) }
+            } else if !sim.flight.is_empty() && x < 72 {
+                let id = rng.pick(&sim.flight).0;
+                sim.drop_msg(id)
+            } else if !sim.flight.is_empty() && sim.flight.len() < 10 && x < 78 {
+                let id = rng.pick(&sim.flight).0;
+                sim.dup_msg(id)
+            } else {
+                let node = rng.below(n as u64) as usize;
+                let adv = *rng.pick(&advs);
+                sim.process(node, adv)
+            };
+            trace.emit(ev);
+            n_chaos += 1;
+        }
+        // ---- heal
+        let mut ok = drain(&mut sim, &mut rng, &mut trace, 2000);
+        let t0 = *sim.clock.iter().max().unwrap();
+        for c in sim.clock.iter_mut() { *c = t0; }
+        let mut appended: Vec<u64> = vec![];
+        let mut val = 0;
+        // a stale leader left over from the prefix may still accept (and legitimately lose) an entry until its next
+        // heartbeat is rejected: the client starts once the healed cluster had time to settle (at once on a cold start)
+        let append_from = if chaos == 0 { t0 } else { t0 + healthy_ms / 3 };
+        let append_until = t0 + 2 * healthy_ms / 3;
+        while ok && sim.clock[0] < t0 + healthy_ms {
+            let dt = *rng.pick(&[10u64, 100, 250, 500]);
+            for c in sim.clock.iter_mut() { *c += dt; }
+            n_rounds += 1;
+            let mut order: Vec<usize> = (0..n).collect();
+            for i in 0..n { let j = i + rng.below((n - i) as u64) as usize; order.swap(i, j); }
+            for node in order {
+                let ev = sim.process(node, 0);
+                if ev["branch"] != "None" { trace.emit(ev); }
+            }
+            ok = drain(&mut sim, &mut rng, &mut trace, 2000);
+            let leaders: Vec<usize> = (0..n).filter(|i| sim.is_leader(*i)).collect();
+            if ok && leaders.len() == 1 && (appended.len() as u64) < max_appends && sim.clock[0] >= append_from && sim.clock[0] <= append_until && rng.chance(1, 6) {
+                val += 1;
+                let ev = sim.append(leaders[0], val);
+                ok = ev["ev"] != "Panic";
+                trace.emit(ev);
+                appended.push(val);
+                n_appends += 1;
+                ok = ok && drain(&mut sim, &mut rng, &mut trace, 2000);
+            }
+        }
+        trace.emit(json!({"ev": "Quiet", "now": sim.clock[0], "since_heal_ms": sim.clock[0] - t0, "appended": appended, "drained": ok}));
+        n_runs += 1;
+    }
+    n_events += trace.events;
+    trace.flush();
+    println!("{}", json!({"first": first, "programs": n_runs, "chaos_steps": n_chaos, "healthy_rounds": n_rounds, "appends": n_appends, "trace_events": n_events}));
 }
